@@ -131,6 +131,11 @@ func (t tupleVariation) calculateScalar(coords []VarCoord, sharedTuples [][]VarC
 	startTuple, endTuple := t.IntermediateTuples[0].Values, t.IntermediateTuples[1].Values
 	hasIntermediate := startTuple != nil
 
+	// the axis count of 'gvar' (or 'cvar') may disagree with 'fvar' in an invalid font
+	if len(peakTuple) < len(coords) || (hasIntermediate && (len(startTuple) < len(coords) || len(endTuple) < len(coords))) {
+		return 0.
+	}
+
 	var scalar float32 = 1.
 	for i := startIdx; i < endIdx; i++ {
 		v, peak := coords[i], peakTuple[i]
@@ -373,6 +378,9 @@ func (gvar gvar) applyDeltasToPoints(glyph gID, coords []VarCoord, points []cont
 			if !applyToAll {
 				ptIndex = tuple.pointNumbers[i]
 			}
+			if int(ptIndex) >= len(deltas) {
+				continue
+			}
 			deltas[ptIndex].isExplicit = true
 			deltas[ptIndex].X += float32(xDeltas[i]) * scalar
 			deltas[ptIndex].Y += float32(yDeltas[i]) * scalar
@@ -602,6 +610,9 @@ func (f *Font) NormalizeVariations(coords []float32) []VarCoord {
 
 	// now applying 'avar'
 	for i, av := range f.avar.AxisSegmentMaps {
+		if i >= len(normalized) { // 'avar' has more axes than 'fvar'
+			break
+		}
 		l := av.AxisValueMaps
 		for j := 1; j < len(l); j++ {
 			previous, pair := l[j-1], l[j]
